@@ -11,6 +11,7 @@ EXPLANATION = (
     "the end (pop), i.e. the cheapest path is expanded first; zero-cost (stopped) elements are never pushed; the result "
     "lists only elements whose flag is set.")
 DECIDED = ["R17a cost table of PathHandler::process (TABLE)", "R17b preconditions of GraphSearch::path (DOM)",
+           "R17e extensions are pruned only by cost 0 or `visited` (slice of the pruning guards)",
            "R17d the result is written only when a path is taken from the queue, never during expansion (WHO)",
            "R15g evaluate_conditions folds every condition with the documented step (shared with C15)",
            "R17c cheapest-first expansion: descending sort + pop; stopped elements unusable; result filtered by flag"]
@@ -64,6 +65,68 @@ def result_writer_rule(ctx, rule="R17d"):
            if bad else "no function on the process_last_path chain writes PathSearch.result (idiom not recognised)",
            (bad[0][1][0].where if bad else ""))
     ctx.floor(rule, "PathSearch bodies scanned for writers of `result`", n, 8)
+
+
+def pruning_guard_rule(ctx, rule="R17e"):
+    """An extended path is discarded only because its last element costs 0 (the search stopped there) or because its end
+    node has already been EXPANDED (`visited`, set when a node is taken from the cost-ordered queue).  Decided on the
+    guards themselves: every branch of expand_edge / expand_node that can keep an extension out of the queue computes
+    its condition (backward data slice) from the handler's cost, the current path and `self.visited` only - not from
+    any other state of the search (e.g. a set of nodes that were merely *reached*: the first path to reach a node is
+    not the cheapest when two prefixes tie)."""
+    allowed = {".visited", ".handler", ".current_path", ".graph", ".storage", ".destination", None}
+    n = 0
+    for fn in ("expand_edge", "expand_node"):
+        b = ctx.anchor(rule, PS + fn)
+        if not b:
+            continue
+        targets = [i for i, t in cfg.calls(b) if cfg.callee(t) == "std::vec::Vec::push"] + cfg.call_blocks(b, [PS + "expand_node"])
+        if not targets:
+            ctx.ob(rule, fn + ":queues-extension", False, "%s no longer queues the extended path (idiom not recognised)" % fn, b.where)
+            continue
+        bad = []
+        for i, blk in enumerate(b.blocks):
+            t = blk["term"]
+            if blk.get("cleanup") or t["k"] != "switch" or t.get("x"):
+                continue
+            if cfg.find_path(b, [i], targets) is None:
+                continue
+            if not any(cfg.find_path(b, [sx], targets) is None for sx in cfg.succs(b, i)):
+                continue            # does not decide whether the extension is queued
+            pl = cfg.op_place(t["d"])
+            if not pl:
+                continue
+            n += 1
+            # value slice of the condition: assignments and call results only (what the condition is computed FROM;
+            # effects of `&mut self.x` calls elsewhere in the function are not inputs of the test)
+            seen, work, reads = set(), [pl[0]], set()
+            while work:
+                l = work.pop()
+                if l in seen:
+                    continue
+                seen.add(l)
+                for d in cfg.defs(b).get(l, []):
+                    ops = cfg.rvalue_operands(d[2]) if d[0] in ("assign", "partial") else (d[2]["a"] if d[0] == "call" else [])
+                    places = [cfg.op_place(o) for o in ops]
+                    if d[0] in ("assign", "partial") and d[2]["k"] in ("ref", "discr"):
+                        places.append(d[2]["p"])
+                    for q in places:
+                        if not q:
+                            continue
+                        work.append(q[0])
+                        r0, f0 = cfg.origin(b, q)
+                        if r0 == 1:
+                            reads.add(f0[0] if f0 else None)
+                        elif r0 != q[0]:
+                            work.append(r0)
+            for f in sorted(x for x in reads if x not in allowed):
+                bad.append((b.loc(i), f))
+        ctx.ob(rule, fn + ":pruned-by-cost-or-visited-only", not bad,
+               "the guards that keep an extension out of the queue read only the cost, the current path and `visited`" if not bad else
+               "PathSearch::%s decides at %s whether an extended path is queued from `self%s`: paths are pruned by state other "
+               "than `visited` (nodes already taken from the queue), so a cheaper path found later through an equal-cost "
+               "prefix is dropped" % (fn, bad[0][0], bad[0][1]), b.where)
+    ctx.floor(rule, "pruning guards of expand_edge / expand_node", n, 2)
 
 
 def run(ctx):
@@ -191,6 +254,7 @@ def run(ctx):
         ctx.ob("R17c", "search:result-filter", bool(flt), "result lists only flagged elements (filter on .1)" if flt else
                "the result is no longer filtered by the per-element flag", b.where)
     result_writer_rule(ctx)
+    pruning_guard_rule(ctx)
     # the cost of an element is decided by evaluate_conditions: its folding step is part of C17 (R15g, shared with C15)
     from rules import C15
     C15.conditions_fold_rule(ctx)
